@@ -342,3 +342,26 @@ def _chk_flat(args, ref, old):
 
 contract("cnvlib/reference.py::do_reference_flat", params=dict(targets=Str), bounded=True, gen=_gen_flat, call=_call_flat,
          modifies=("tmp", "targets", "fasta"), props=("C05",), checks=[("flat_levels_gc_rmask", _chk_flat)])
+
+
+# ----------------------------------------------------------------------------- deductive: GC / lowercase fractions
+_ACGT = "(count(subseq, 'A') + count(subseq, 'C') + count(subseq, 'G') + count(subseq, 'T') + count(subseq, 'a') + count(subseq, 'c') + count(subseq, 'g') + count(subseq, 't'))"
+
+contract(
+    "cnvlib/reference.py::calculate_gc_lo",
+    params=dict(subseq=Str),
+    returns=TupT(Real, Real),
+    requires=[],
+    ensures=[
+        # G+C fraction and lowercase fraction of the unambiguous bases A, C, G, T (either case); 0 when there are none
+        ("gc_fraction", "result[0] == ite(TOT == 0, 0, (count(subseq, 'G') + count(subseq, 'C') + count(subseq, 'g') + "
+                        "count(subseq, 'c')) / TOT)".replace("TOT", _ACGT)),
+        ("lowercase_fraction", "result[1] == ite(TOT == 0, 0, (count(subseq, 'a') + count(subseq, 'c') + count(subseq, 'g') + "
+                               "count(subseq, 't')) / TOT)".replace("TOT", _ACGT)),
+    ],
+    props=("C05",), domain=dict(subseq=lambda rng, tier: "".join(rng.choice("ACGTacgtNnRy") for _ in range(rng.randint(0, 30)))),
+    ghost=dict(nonlinear=True),
+    canaries=[("upper_only", "frac_gc = (cnt_gc_lo + cnt_gc_up) / tot", "frac_gc = cnt_gc_up / tot"),
+              ("n_in_denominator", "tot = float(cnt_gc_up + cnt_gc_lo + cnt_at_up + cnt_at_lo)", 'tot = float(len(subseq) - subseq.count("N"))'),
+              ("lo_counts_gc_only", "frac_lo = (cnt_at_lo + cnt_gc_lo) / tot", "frac_lo = cnt_gc_lo / tot")],
+)
